@@ -104,7 +104,7 @@ def handleFullBash (args : List String) : String :=
     | .diverge => "DIVERGE"
 
 /-- SEM: source files -> the two semantic models on the same program.
-    answer `SEM <src> <sh>`, each `U` (outside the fragment / out of fuel) or `<status>:<hex of stdout>` -/
+    answer `SEM <src> <sh> <N|F1|F2|F12> <src1> <sh1>`, each result `U` (outside the fragment / out of fuel) or `<status>:<hex of stdout>` -/
 def semRes (r : Option (Sem.Out × List String)) : String :=
   match r with
   | none => "U"
@@ -135,7 +135,16 @@ def handleSem (args : List String) : String :=
           | some (.exit k, out) => semOut (toString k) out
           | _ => "U"
         | _ => "U"
-      "SEM " ++ src ++ " " ++ sh ++ (if Sem.Src.fragStmts p.body then " F" else " N")
+      -- the fragments of the two semantic theorems: 1 = scalar (C01, models Sem), 2 = with functions (C02, models Sem2)
+      let f1 := Sem.Src.fragStmts p.body
+      let f2 := Sem2.Src.fragP [] p.body
+      let flag := if f1 && f2 then "F12" else if f1 then "F1" else if f2 then "F2" else "N"
+      -- the models the scalar theorem is about, on the programs of its fragment
+      let src1 := if f1 then semRes (Sem.Src.runProgram 200000 p.body) else "-"
+      let sh1 := if f1 then (match Bash.compile p.body with
+        | .ok ls => semRes (Sem.run 200000 ls)
+        | _ => "U") else "-"
+      "SEM " ++ src ++ " " ++ sh ++ " " ++ flag ++ " " ++ src1 ++ " " ++ sh1
     | .error => "ERR"
     | .panic => "PANIC"
     | .diverge => "DIVERGE"
